@@ -259,6 +259,8 @@ def one_roundtrip(obs, rng, conv, off, spec):
     # source, so none may appear in the saved file either
     model = make_dressed(rng, conv, dress=dict(time=has_time, per_kind=(1, 2), nongrid=1,
                                                dtypes=DTYPES + [('float32', ('missing_value', -9999.0)), ('float64', ('missing_value', -9999.0))]))
+    if model.time is not None:
+        model.time.pop('bounds', None)          # this check adds (and compares) the bounds of the time coordinate itself
     spec['model'] = model.describe()
     obs.cls('roundtrip:' + conv)
     truth = period = units = None
